@@ -79,6 +79,8 @@ type Session struct {
 	// have held back later messages too
 	StaleDeferred map[string]bool
 	LastRecvMax   uint16 // Receive Maximum of the connection that ended last
+	EverOwed      map[string]bool // every QoS>0 message that was ever queued or in flight for this session
+	LeakyBefore   bool            // an earlier session of this client id had messages held back
 }
 
 type Expect struct {
